@@ -135,6 +135,7 @@ class GOb(Obligation):
 
             def body():
                 G.PRIM_LOG.clear()
+                G.reset_execution()
                 res = self.call(I)
                 prims = list(G.PRIM_LOG)
                 try:
@@ -197,7 +198,9 @@ class GOb(Obligation):
                     return Verdict(REFUTED, "concretised-misaligned", why, npaths, wit)
                 return Verdict(UNDECIDED, "engine", why, npaths)
             # ---- engine soundness monitor: symbolic result evaluated at a concrete instance == native run
-            okm, info = self._monitor(paths[0]) if self.post and self.raises is None else (True, "")
+            # (only a path without data-dependent decisions is comparable with one native run)
+            mpaths = [p for p in paths if not p.ctx.data_path]
+            okm, info = self._monitor(mpaths[0]) if (self.post and self.raises is None and mpaths) else (True, "monitor skipped: every path has data-dependent decisions")
             if not okm:
                 return Verdict(ENGINE_BUG, "soundness-monitor", info, npaths)
             return Verdict(PROVED, "canonical-form" if self.raises is None else "path-condition", "", npaths,
@@ -270,12 +273,14 @@ class GOb(Obligation):
             rng = np.random.RandomState(12345)
             S = NumNS(env, rng)
             # evaluate symbolic `got` values on the inputs NumNS draws, compare with the native `got`
-            with _native_backend(self.tenalg):
+            with _native_backend(self.tenalg) as nb:
                 I = concretize_args(self.setup(S), env)
                 I0 = copy.deepcopy(I)
                 inputs0 = copy.deepcopy(S.inputs)
                 nres = self.call(I)
                 npairs = self.post(S, I0, nres)
+                inputs0.update(nb.recorded)
+                inputs0.update(S.recorded)
             for (label, got, want), (_, ngot, nwant) in zip(pairs, npairs):
                 if not isinstance(got, G.GTensor):
                     continue
@@ -303,10 +308,35 @@ class _native_backend:
         tl.set_backend("numpy")
         if self.tenalg:
             tenalg_mod.set_backend(self.tenalg)
+        # record the results of the linear-algebra dependencies in call order: they instantiate the opaque
+        # SOL#k / LSQ#k tensors of the symbolic run when symbolic results are evaluated (soundness monitor)
+        from tensorly.backend.numpy_backend import NumpyBackend
+        self.recorded = {}
+        self._saved = {}
+        counters = {}
+
+        def wrap(name, prefix, pick):
+            real = NumpyBackend.__dict__[name]
+            self._saved[name] = real
+            f = real.__func__ if hasattr(real, "__func__") else real
+
+            def rec(*a, **k):
+                out = f(*a, **k)
+                i = counters.get(prefix, 0)
+                counters[prefix] = i + 1
+                self.recorded[f"{prefix}#{i}"] = pick(out)
+                return out
+            NumpyBackend.register_method(name, rec)
+        wrap("solve", "SOL", lambda o: o)
+        wrap("lstsq", "LSQ", lambda o: o[0])
+        return self
 
     def __exit__(self, *a):
         import tensorly as tl
         import tensorly.tenalg as tenalg_mod
+        from tensorly.backend.numpy_backend import NumpyBackend
+        for name, real in self._saved.items():
+            setattr(NumpyBackend, name, real)
         tl.set_backend(self.old)
         tenalg_mod.set_backend(self.old_t)
         return False
